@@ -1,7 +1,8 @@
 (* C16 — property theorems only (statements + [exact]); proofs are in Proofs.v / VrfProofs.v / VrfInst.v. *)
 From Coq Require Import List NArith ZArith Znumtheory Bool.
 From V.Base Require Import Hex BigEndian.
-From V.C16 Require Import Model Proofs FloatProofs Vrf VrfProofs VrfInst VrfEll Curve CurveProofs FieldMod CurveClosure.
+From V.C16 Require Import Model Proofs FloatProofs Vrf VrfProofs VrfInst VrfEll Curve CurveProofs FieldMod CurveClosure
+  CurveDecompress CurveAdd CurveComplete CurveEncode.
 Import ListNotations.
 Local Open Scope Z_scope.
 
@@ -385,6 +386,80 @@ Theorem C16_curve_equation_projective : forall P, Cv P ->
       (pZ P * pZ P * (pZ P * pZ P) + cd * (pX P * pX P) * (pY P * pY P)).
 Proof. exact Cv_projective. Qed.
 Print Assumptions C16_curve_equation_projective.
+
+(* for EVERY 256-bit input: what FromBytes returns is a point of the curve (passes the model's
+   on_curve test), and compressing it gives the canonical form of the input: y reduced modulo p (an
+   encoding with y >= p decodes like y - p), the sign bit kept when x <> 0 and dropped when x = 0 *)
+Theorem C16_decompress_sound : forall e P, 0 <= e < 2 ^ 256 -> decompress e = Some P ->
+  on_curve P = true /\
+  compress P = (e mod 2 ^ 255) mod fp + 2 ^ 255 * (if pX P =? 0 then 0 else e / 2 ^ 255).
+Proof.
+  exact (fun e P He H => conj (decompress_on_curve e P (proj1 He) H) (decompress_compress_canonical e P He H)).
+Qed.
+Print Assumptions C16_decompress_sound.
+
+(* d is not a square modulo p (Euler's criterion by computation + Fermat's little theorem) *)
+Theorem C16_d_nonsquare : forall w, ~ eqm (w * w) cd.
+Proof. exact d_nonsquare. Qed.
+Print Assumptions C16_d_nonsquare.
+
+(* the addition law of the code is closed and complete on the curve, for all in-range inputs:
+   [good P] = coordinates in [0,p), equations of the extended curve, Z <> 0.  Doubling, addition,
+   subtraction (geAdd/GeSub formulas) and every scalar multiple of good points are good; decoded
+   points and the base point are good; good points pass on_curve *)
+Theorem C16_curve_closed_complete :
+  (forall P, good P -> good (pt_double P)) /\
+  (forall P Q, good P -> good Q -> good (pt_add P Q)) /\
+  (forall P Q, good P -> good Q -> good (pt_sub P Q)) /\
+  (forall k P, good P -> good (pt_mul k P)) /\
+  (forall e P, 0 <= e -> decompress e = Some P -> good P) /\
+  good base_point /\ good pt_zero /\
+  (forall P, good P -> on_curve P = true).
+Proof.
+  exact (conj good_double (conj good_add (conj good_sub (conj good_mul (conj good_decompress
+         (conj good_base (conj good_zero good_on_curve))))))).
+Qed.
+Print Assumptions C16_curve_closed_complete.
+
+(* so the two points ECVRFVerify hashes always exist and lie on the curve *)
+Theorem C16_vrf_points_good : forall Y Gm H c s, good Y -> good Gm -> good H ->
+  good (pt_sub (pt_mul s base_point) (pt_mul c Y)) /\ good (pt_sub (pt_mul s H) (pt_mul c Gm)).
+Proof. exact vrf_points_good. Qed.
+Print Assumptions C16_vrf_points_good.
+
+(* the 32-byte encoding (ToBytes) is injective on the points of the curve: equal encodings, equal
+   projective points; finv is the field inverse (Fermat) *)
+Theorem C16_compress_injective : forall P Q, good P -> good Q -> compress P = compress Q -> pt_eqb P Q = true.
+Proof. exact compress_injective. Qed.
+Print Assumptions C16_compress_injective.
+
+Theorem C16_finv_correct : forall z, inF z -> z <> 0 -> inF (finv z) /\ eqm (z * finv z) 1.
+Proof. exact finv_correct. Qed.
+Print Assumptions C16_finv_correct.
+
+(* two group axioms that are cheap for the model: commutativity (identical coordinates) and the
+   neutral element (same projective point) *)
+Theorem C16_curve_add_comm : forall P Q, wf P -> wf Q -> pt_add P Q = pt_add Q P.
+Proof. exact add_comm_exact. Qed.
+Print Assumptions C16_curve_add_comm.
+
+Theorem C16_curve_add_zero : forall P, wf P -> pt_eqb (pt_add P pt_zero) P = true.
+Proof. exact add_zero_r. Qed.
+Print Assumptions C16_curve_add_zero.
+
+(* STATUS of the hypotheses of Vrf.World with respect to the concrete curve model (Curve.v):
+     theorems now: ell prime (C16_curve_constants); the operations are total and closed on curve points
+       (C16_curve_closed_complete: what makes G a carrier with add/neg/smul); decidable equality through
+       the encoding is sound (C16_compress_injective, the role of geqb_spec for "points stand for their
+       encodings"); ell * B = O and B <> O (C16_curve_constants); the eight points of order dividing 8
+       and that they are outside the ell-torsion (C16_torsion8, C16_torsion_not_in_subgroup); the
+       challenge range 2^128 <= ell (VrfEll.cb128_ok);
+       add_comm and add_0_l (C16_curve_add_comm, C16_curve_add_zero);
+     remain hypotheses: add_assoc and add_neg_r for pt_add up to projective equality, the Z-module laws for pt_mul (smul_add_l, smul_add_r, smul_mul:
+       they follow from associativity), order8l (every point is killed by 8*ell: needs the group order
+       8*ell, i.e. a point count), B_order as an equivalence and cyclic (follow from the group laws and
+       the point count), decompress (compress P) = P (needs the correctness of the (p-5)/8 square-root
+       formula); these are covered per instance by the correspondence cases (KS, KM, KG, KV, KT, KD). *)
 
 (* Non-vacuity: a World exists (all group/hash hypotheses hold for Z/40), an honest proof in it
    verifies, and the guard of the qn theorem is met by an accepted proof with qn = 2. *)
